@@ -2,14 +2,17 @@
 
 case = {"mode": "regular"|"transparent", "reqs": [request descriptors], "resps": [response descriptors],
         "edits": [[flow ordinal, "request"|"response", kind, arg]],
-        "seg": None | {"client": [cut points], "server": [[cut points] per response]}}      (segmentation: C02)
+        "seg": None | {"client": [cut points], "server": [[cut points] per response], "delay": [ints]}   (C02)
+        "policy": [[flow ordinal, hook name, action, arg]]   action in pass|kill|resp|stream|hold (arg = deliveries to hold)
+        "fault": None | {"kind": client-close|client-close-full|server-close|server-close-full, "at": delivery index}
+        "connect_fail": [indices of OpenConnection commands that fail]}                                  (C03)
 Returns an Outcome with per-flow snapshots (before/after addon edits), bytes written to every connection, hook order.
 """
 from __future__ import annotations
 
 import http1gen
 import ref_http1
-from driver import Driver, make_context, make_options
+from driver import HOLD, Driver, make_context, make_options
 from mitmproxy.connection import ConnectionState
 from mitmproxy.proxy.layers import http as http_layer
 
@@ -99,11 +102,64 @@ def run_http1(case, opts_kw=None, hook_extra=None, before_close=None) -> Outcome
             r.resp_post = snap_resp(flow.response)
         elif name == "error":
             r.error = flow.error.msg if flow.error else "?"
+        res = None
+        for o, hname, action, arg in policies:
+            if o != r.ordinal or hname != name:
+                continue
+            if action == "kill":
+                if flow.killable:
+                    flow.kill()
+            elif action == "resp" and name in ("requestheaders", "request") and not flow.request.stream:
+                from mitmproxy import http as mhttp
+                flow.response = mhttp.Response.make(203, b"from-addon", {"X-Addon": "1"})
+            elif action == "stream":
+                if name == "requestheaders" and not flow.response:
+                    flow.request.stream = True
+                elif name == "responseheaders":
+                    flow.response.stream = True
+            elif action == "hold":
+                held.append([hook, int(arg)])
+                res = HOLD
         if hook_extra:
             return hook_extra(hook, r)
-        return None
+        return res
 
-    d = Driver(ctx, top, hook_policy=policy)
+    policies = case.get("policy") or []
+    held = []  # [hook command, deliveries left]
+    fault = case.get("fault") or None
+    connect_fail = set(case.get("connect_fail") or [])
+    nopen = [0]
+
+    def conn_policy(cmd):
+        i = nopen[0]
+        nopen[0] += 1
+        return "connection refused (injected)" if i in connect_fail else None
+
+    d = Driver(ctx, top, hook_policy=policy, conn_policy=conn_policy)
+    deliveries = [0]
+    _recv = d.recv
+
+    def recv(conn, data):
+        k = deliveries[0]
+        deliveries[0] += 1
+        if fault and fault["at"] == k:
+            kind = fault["kind"]
+            if kind.startswith("client"):
+                d.close(ctx.client, full=kind.endswith("full"))
+            else:
+                live = [c for c in d.servers if c.state & ConnectionState.CAN_READ]
+                if live:
+                    d.close(live[-1], full=kind.endswith("full"))
+        if conn.state & ConnectionState.CAN_READ and d.crashed is None:
+            _recv(conn, data)
+        for h in list(held):
+            h[1] -= 1
+            if h[1] <= 0 and h in held:
+                held.remove(h)
+                if h[0] in d.held:
+                    d.release(h[0])
+
+    d.recv = recv
     seg = case.get("seg") or {}
     client_bytes = b"".join(http1gen.req_bytes(r) for r in case["reqs"])
     resp_descs = case.get("resps") or []
@@ -174,6 +230,14 @@ def run_http1(case, opts_kw=None, hook_extra=None, before_close=None) -> Outcome
             d.close(conn)
     if ctx.client.state is not ConnectionState.CLOSED:
         d.close(ctx.client, full=True)
+    # drain held completions (terminal state of C03)
+    guard = 0
+    while d.held and d.crashed is None and guard < 50:
+        guard += 1
+        d.release(d.held[0])
+    for conn in list(d.servers):
+        if conn.state is not ConnectionState.CLOSED:
+            d.close(conn, full=True)
 
     o = Outcome()
     o.driver = d
